@@ -420,6 +420,56 @@ func verifC03Fields() {
 	verifReach("end")
 }
 
+// verifC03TwoMetrics: ONE merger instance merges two metrics one after the other, as a compaction job
+// does for the keys of its input files; the metrics' blocks have different field layouts (the first: two
+// select-type fields, thorough: any subset of three; the second: any non-empty subset of the three). Each merged block is compared
+// with the fold of that metric's inputs: nothing of the first metric's layout leaks into the second.
+func verifC03TwoMetrics() {
+	cand := field.Metas{{ID: 1, Type: field.MinField}, {ID: 4, Type: field.MaxField}, {ID: 7, Type: field.LastField}}
+	sink := kv.NewNopFlusher()
+	m, err := NewMerger(sink)
+	verifAssume(err == nil)
+	m.Init(map[string]interface{}{})
+	for metric := 0; metric < 2; metric++ {
+		sub := 3 // the first metric: fields 1 and 4
+		if metric == 1 || verifThorough() {
+			sub = 1 + verifChoose("fields", 1<<uint(len(cand))-1)
+		}
+		files := make([]*verifC03File, 2)
+		for i := range files {
+			f := &verifC03File{rng: timeutil.SlotRange{Start: uint16(verifC03Base + i), End: uint16(verifC03Base + i + 1)}, series: []uint32{5}}
+			for k, fm := range cand {
+				if sub&(1<<uint(k)) != 0 {
+					f.fields = append(f.fields, fm)
+				}
+			}
+			var row [][]verifC03Cell
+			for range f.fields {
+				row = append(row, verifC03Stream("v", 2, 3))
+			}
+			f.data = append(f.data, row)
+			files[i] = f
+		}
+		union, ids, _ := verifC03Union(files)
+		blocks := make([][]byte, len(files))
+		for i, f := range files {
+			blocks[i] = verifC03Flush(f)
+		}
+		err := m.Merge(uint32(1+metric), blocks)
+		verifAssert(err == nil, "the merger accepts a further metric of the same compaction")
+		if err != nil {
+			return
+		}
+		merged := append([]byte{}, sink.Bytes()...)
+		obs, _, ok := verifC03Read(merged, union, ids)
+		verifAssert(ok, "reader accepts the merged block")
+		if ok {
+			verifC03Compare(files, union, obs)
+		}
+	}
+	verifReach("end")
+}
+
 // verifC03Three: three files, one series, one field, overlapping ranges (thorough)
 func verifC03Three()    { verifC03ThreeOf(verifC03Select) }
 func verifC03ThreeSum() { verifC03ThreeOf(verifC03Sums[:1]) }
